@@ -104,7 +104,7 @@ class C02(C01):
         "the same script with shifted object addresses (same file / same error required) and a run with permuted "
         "insertion order and re-drawn corner numberings (same outcome class and same count per block direction required)."
     )
-    assumptions = C01.assumptions + [
+    assumptions = C01.PROP_ASSUMPTIONS + [
         "the work-list `undefined_blocks` (a set of small ints) is iterated in ascending order (CPython) — validated by the call trace",
         "a hang is observed as 'no return within 20 s'",
     ]
